@@ -70,7 +70,10 @@ Inductive clabel :=
 | RTEnd (ok : bool)   (* observation: the round trip is returning a response / an error (-> 502 + Warning) *)
 | RespStatus (f : bool)(* observation: the head about to be written is the synthesized 502 (f) or not *)
 | WriteFail           (* a socket write of the response returned an error *)
-| CliGone.            (* observation: the client closed its side *)
+| CliGone             (* observation: the client closed its side *)
+| RTBroken.           (* observation: the round trip towards a REACHABLE origin failed (or did not
+                         deliver the complete request body): the client will get a proxy-made 502
+                         in place of the origin's response *)
 
 Inductive label :=
 | Accept (c : nat)
@@ -100,6 +103,7 @@ Definition cstep (cl lk : bool) (p : phase) (k : clabel) : option phase :=
   | ResModStart, InRoundTrip => Some InResMod
   | ResModStart, InReqMod => Some InResMod      (* ctx.SkipRoundTrip(): the round tripper is not called *)
   | RTEnd _, InRoundTrip => Some InRoundTrip
+  | RTBroken, InRoundTrip => Some InRoundTrip
   | RespStatus _, Decided m => Some (Decided m)
   | WriteFail, Writing _ => Some Broken
   | SockClose, Broken => Some SockClosed
@@ -315,7 +319,7 @@ Definition is_conn (c : nat) (k : clabel) (l : label) : bool :=
       | Register, Register | Enter, Enter | HeadPart, HeadPart | ReqModStart, ReqModStart
       | RTStart, RTStart | ResModStart, ResModStart | ResModEnd, ResModEnd | Decide, Decide
       | WriteDone, WriteDone | SockClose, SockClose | Done, Done
-      | WriteFail, WriteFail | CliGone, CliGone => true
+      | WriteFail, WriteFail | CliGone, CliGone | RTBroken, RTBroken => true
       | WriteHead m, WriteHead m' => Bool.eqb m m'
       | RTEnd m, RTEnd m' => Bool.eqb m m'
       | RespStatus m, RespStatus m' => Bool.eqb m m'
@@ -452,6 +456,7 @@ Fixpoint status_scan (c : nat) (failed : bool) (tr : list label) : bool :=
         match k with
         | ReqModStart => status_scan c false r
         | RTEnd ok => status_scan c (negb ok) r
+        | RTBroken => status_scan c true r
         | RespStatus f => Bool.eqb f failed && status_scan c failed r
         | _ => status_scan c failed r
         end
@@ -476,6 +481,14 @@ Definition gone_q (x z : label) : bool :=
 Definition ok_fail_only_if_gone (tr : list label) : bool :=
   all_preceded is_writefail gone_q [] tr.
 
+(* the client gets the ORIGIN's response: no round trip towards a reachable
+   origin fails (the harness marks as RTEnd false only the failures it
+   scripted itself: origin made to refuse, hang up or time out) *)
+Definition is_rtbroken (l : label) : bool :=
+  match l with Conn _ RTBroken => true | _ => false end.
+Definition ok_origin_response (tr : list label) : bool :=
+  forallb (fun l => negb (is_rtbroken l)) tr.
+
 (* Safety part that every model execution satisfies (theorem
    C07_model_executions_safe), the clause refuted by the model (D36), and
    the clauses for complete runs. *)
@@ -490,7 +503,7 @@ Definition c07_quiescent_ok (tr : list label) : bool :=
 Definition c07_ok (tr : list label) (views : list cview) : bool :=
   c07_safe_ok tr && ok_return_after_accepted_closed tr
   && c07_quiescent_ok tr && ok_client_views tr views
-  && ok_status tr && ok_fail_only_if_gone tr.
+  && ok_status tr && ok_fail_only_if_gone tr && ok_origin_response tr.
 
 (* first failing clause, for the verdict line *)
 Definition c07_failing_clause (tr : list label) (views : list cview) : nat :=
@@ -500,6 +513,7 @@ Definition c07_failing_clause (tr : list label) (views : list cview) : nat :=
   else if negb (ok_no_reqmod_after_return tr) then 4
   else if negb (ok_late_not_served tr) then 5
   else if negb (ok_return_after_served_closed tr) then 11
+  else if negb (ok_origin_response tr) then 14
   else if negb (ok_fail_only_if_gone tr) then 13
   else if negb (ok_status tr) then 12
   else if negb (ok_client_views tr views) then 10
@@ -517,7 +531,7 @@ Definition c07_failing_clause (tr : list label) (views : list cview) : nat :=
 Definition progress_label (l : label) : bool :=
   match l with
   | Accept _ | CloseCall | ClosingSeen | Conn _ HeadPart | Conn _ ReqModStart
-  | Conn _ (RTEnd _) | Conn _ (RespStatus _) | Conn _ CliGone => false
+  | Conn _ (RTEnd _) | Conn _ (RespStatus _) | Conn _ CliGone | Conn _ RTBroken => false
   | _ => true
   end.
 
